@@ -361,7 +361,7 @@ func TestDHCPAccounting(t *testing.T) {
 	}
 	defer acct.close()
 	alphabet := []byte("DRNLSXC")
-	depth := run.Pick(4, 6)
+	depth := run.Pick(4, 5)
 	one := func(ops []dOp, n int, sample bool) {
 		h := histString(ops, n > 1)
 		r := playDHCP(t, acct, ops, n)
@@ -412,7 +412,7 @@ func TestDHCPAccounting(t *testing.T) {
 	one([]dOp{{K: 'D'}, {K: 'R'}, {K: 'L'}, {K: 'D'}, {K: 'R'}, {K: 'S'}}, 1, true)
 
 	// seeded random histories: two clients, longer, with half-lease waits (renewals that extend)
-	for i, n := 0, run.Pick(400, 6000); i < n; i++ {
+	for i, n := 0, run.Pick(400, 10000); i < n; i++ {
 		rng := run.SubRand("dhcp-history", i)
 		one(randomDHCPHistory(rng), 2, false)
 	}
